@@ -1159,6 +1159,9 @@ impl World {
             // a TRANSIENT store error: every write fails during this one request, the process keeps running (the node retries
             // or goes on; round 9).  What a refused request left in memory is whatever the code left there.
             let inner = t[1..].join(" ");
+            // (round 10) the in-memory state before the request (already rendered at the end of the previous op, so this call
+            // assigns no new point ids)
+            let before = self.digest();
             self.fail.store(true, std::sync::atomic::Ordering::Relaxed);
             self.in_fail = true;
             let line = self.apply(&inner);
@@ -1166,10 +1169,17 @@ impl World {
             self.fail.store(false, std::sync::atomic::Ordering::Relaxed);
             self.tags.insert(if line.starts_with("ok") { "failr:acknowledged".into() } else { "failr:refused".into() });
             if !line.starts_with("ok") {
-                // ghost (survives restarts): which kind of request met a store error and was refused while the signer kept
-                // running; violations found afterwards carry it in their kind (`…-after-store-error-in-<request>`)
-                let fam = t.get(1).copied().unwrap_or("").trim_start_matches('h').trim_end_matches(|ch: char| ch.is_ascii_digit()).to_string();
-                self.store_error_in.get_or_insert(fam);
+                // ghost (survives restarts): which kind of request met a store error, was refused while the signer kept
+                // running AND left the in-memory state changed (memory ahead of the store); violations found afterwards carry
+                // it in their kind (`…-after-store-error-in-<request>`).  A refused request that changed nothing is not a cause
+                // of anything later, and of several the latest one is named (round 10: the first refused one was named whether
+                // or not it had an effect, so `failr signrecovery` (no effect) ... `failr revoke` mislabelled the listed finding
+                // of revoke as one of signrecovery and the thorough tier reported it as new).
+                if self.digest() != before {
+                    let fam = t.get(1).copied().unwrap_or("").trim_start_matches('h').trim_end_matches(|ch: char| ch.is_ascii_digit()).to_string();
+                    self.tags.insert(format!("failr:left-memory-changed:{}", fam));
+                    self.store_error_in = Some(fam);
+                }
             }
             return format!("failr {}", line);
         }
